@@ -158,7 +158,7 @@ def worker(case):
     keep = False
     B = core.unb64(case["B"])
     T0 = core.unb64(case["T0"])
-    cid = core.h8([case["name"], case["cls"], case["hdr"], case["body"][:64], len(case["body"]), case["frag"], case["seq"], case.get("loglevel")])
+    cid = core.h8([case["name"], case["cls"], case["hdr"], case["body"][:64], len(case["body"]), case["frag"], case["seq"], case.get("loglevel"), case.get("fd2")])
     stats = {"evaluations": 1}
     try:
         p = zckref.parse(B)
@@ -166,7 +166,7 @@ def worker(case):
         missing = [c for c in p.chunks if c["number"] in case["M"] and c["comp_len"] > 0]
         allowed = ",".join("%d-%d" % ext(c) for c in missing) or "0-0"
         body = core.unb64(case["body"])
-        L = ["fopen 1 t.zck rw target", "create 1", "init_read 1 1", "fv 1", "reset_failed 1", "flags 1", "dl_init 0 1",
+        L = (["closefd 2"] if case.get("fd2") else []) + ["fopen 1 t.zck rw target", "create 1", "init_read 1 1", "fv 1", "reset_failed 1", "flags 1", "dl_init 0 1",
              "range 2 1 %d" % case["limit"], "dl_set_range 0 2", "watch target %s" % allowed]
         for h in case["hdr"]:
             L.append("hdrline 0 x:%s all" % h)
@@ -184,7 +184,9 @@ def worker(case):
         L += ["watchstat", "watch - -", "flags 1", "dl_free 0", "range_free 2", "free 1"]
         # a third of the cases with the library's logging at DEBUG level (what zckdl -vv sets): message formatting sees the hostile bytes too
         rd = core.run_zh(case["zh"], cdir, "\n".join(L) + "\n", {"t.zck": T0, "body.bin": body or b""}, name="dl",
-                         env_extra={"ZH_LOGLEVEL": str(case["loglevel"])} if case.get("loglevel") is not None else None)
+                         env_extra={"ZH_LOGLEVEL": str(case["fd2"] if case.get("fd2") else case["loglevel"])} if (case.get("loglevel") is not None or case.get("fd2")) else None)
+        if case.get("fd2"):
+            stats["runs_with_target_on_descriptor_2"] = 1
         if case.get("loglevel") is not None:
             stats["runs_with_debug_logging"] = 1
         if rd.timed_out and not rd.cpu_exceeded:
@@ -295,6 +297,7 @@ class C17(core.Check):
                     seq = r.choice([["retry"], ["retry", "reset"], ["clear", "retry"]])
                 out.append({"name": "f%d" % fi, "B": core.b64(B), "T0": core.b64(bytes(T0)), "M": M, "limit": limit, "cls": cls,
                             "hdr": [h.hex() for h in hdr], "body": core.b64(body), "frag": frag, "seq": seq, "zh": ctx["zh"],
+                            "fd2": 3 if r.random() < 0.15 else None,
                             "loglevel": 0 if (cls in ("boundary-long", "boundary-metachar", "header-malformed") or r.random() < 0.25) and not frag.startswith("n:1") else None})
         return out
 
